@@ -63,7 +63,7 @@ func c16Layout(r *core.Rng) *ast.Layout {
 	return l
 }
 
-var trickyStrings = []string{"{", "}", "[", "]", "}{", "][", "\"", "a\"b", ";", "; not a comment {", "{\n", "line one\nline two", "\n}", "[\n1,\n2", "x = \"", "->", "if {", "ok"}
+var trickyStrings = []string{"a\n\nb", "x\n   \ny", "\n\n", "p; q", "; r\"s", "{", "}", "[", "]", "}{", "][", "\"", "a\"b", ";", "; not a comment {", "{\n", "line one\nline two", "\n}", "[\n1,\n2", "x = \"", "->", "if {", "ok"}
 
 func c16Script(ctx *core.Ctx, idx int) core.Result {
 	r := core.CaseRng(ctx.Seed, "C16/script", idx)
